@@ -111,7 +111,8 @@ def _choices(r: random.Random, k=None):
     return vals
 
 
-def gen_task(r: random.Random, family: str, minmax: str | None = None, dim_max: int = 8, cls: str = "SimTask"):
+def gen_task(r: random.Random, family: str, minmax: str | None = None, dim_max: int = 8, cls: str = "SimTask",
+             big_dim: int | None = None):
     scale = r.choice(SCALES) if r.random() < 0.6 else 1.0 * r.choice([1, 5, 10])
     vars_, lows, highs = [], [], []
     perm_n = 0
@@ -139,7 +140,7 @@ def gen_task(r: random.Random, family: str, minmax: str | None = None, dim_max: 
         highs.append(max(ch))
 
     if family == "cont_multi":
-        add_cont("x")
+        add_cont("x", k=big_dim)
     elif family == "cont_single":
         add_cont("x", 1, multi=False)
     elif family == "cont_mixed":
@@ -500,7 +501,7 @@ def gen_scenario(seed: int, optimizer: str, family: str, mode: str, validate, *,
     """One engine-G scenario descriptor."""
     opts = opts or {}
     r = random.Random(H(seed, "workload"))
-    task = gen_task(r, family, minmax=opts.get("minmax"), dim_max=opts.get("dim_max", 8))
+    task = gen_task(r, family, minmax=opts.get("minmax"), dim_max=opts.get("dim_max", 8), big_dim=opts.get("big_dim"))
     cyc = opts.get("cycles", (1, 12) if tier == "quick" else (1, 40))
     cfg, perturbed = gen_config(r, optimizer, validate, cycles=cyc, perturb_p=opts.get("perturb_p", 0.3),
                                 pop_scales=opts.get("pop_scales", (1, 1, 1.5, 2, 3)),
@@ -516,6 +517,51 @@ def gen_scenario(seed: int, optimizer: str, family: str, mode: str, validate, *,
         "faults": gen_faults(r, mode, workers or 0, p_none=opts.get("p_no_faults", 0.45), kinds=opts.get("fault_kinds")),
     }
     desc["history"] = gen_history(r, task, p=opts.get("p_history", 0.2))
+    if desc["history"]:
+        # own stream (the scenarios above stay what they were): what the process did and what the user's script changed
+        # between the earlier runs and the observed one
+        rh = random.Random(H(seed, "history-process"))
+        for h in desc["history"]:
+            if rh.random() < 0.5:
+                # the earlier run used a pool too - the same kind and size as the observed run will ask for
+                h["mode"] = mode if mode != "serial" else rh.choice(["thread", "process"])
+                h["workers"] = workers if workers is not None else rh.choice([1, 2, 4])
+        if rh.random() < 0.35 and "multi" not in task["objective"]:
+            # the objective reads a global of the user's script, and the script changed it between the runs
+            task["objective"]["user_state"] = True
+            task["objective"]["user_offset"] = rh.choice([0.0, 1.5, -2.0, 100.0])
+            for h in desc["history"]:
+                ob = h["task"]["objective"]
+                if "multi" not in ob:
+                    ob["user_state"] = True
+                    ob["user_offset"] = rh.choice([3.0, -7.0, 1000.0, 0.25])
+        if rh.random() < 0.3 and any(h.get("instance", "same") == "same" for h in desc["history"]):
+            # the earlier runs used another configuration of the same instance (a tuner re-configures one instance per
+            # grid point): other parameter values, a larger or a smaller population
+            try:
+                hc, _ = gen_config(rh, optimizer, validate, cycles=(1, 4), perturb_p=0.7,
+                                   pop_scales=(1, 1.5, 2, 3), stop_opts=False, any_pop_p=0.3)
+                if rh.random() < 0.4:
+                    hc["population_size"] = cfg["population_size"]
+                validate(optimizer, hc)
+                desc["history_config"] = hc
+            except Exception:
+                pass
+        if rh.random() < 0.25:
+            # the observed task's class is defined only after the earlier runs (notebook cell, REPL)
+            task["cls"] = "LateTask"
+            task["late"] = True
+    if not desc["history"] and not opts.get("no_via"):
+        # the OptimizationResult may reach the user through the utilities that drive optimizers generically
+        rv = random.Random(H(seed, "via"))
+        u = rv.random()
+        if u < opts.get("p_via", 0.10) / 2:
+            desc["via"] = "hypertuner"
+            desc["via_trials"] = rv.choice([1, 1, 2])
+        elif u < opts.get("p_via", 0.10):
+            desc["via"] = "multitask"
+            desc["via_trials"] = rv.choice([1, 2, 2, 3])
+            desc["via_pick"] = rv.randrange(3)
     # diagnostics switched on (observer effect): the constructor's debug flag only prints
     desc["debug"] = r.random() < opts.get("p_debug", 0.08)
     return desc
